@@ -469,6 +469,13 @@ def h_searchsorted(I, args, kw, st, n):
     return lift1(lambda x: mk_fn(name, [x], "pos"), v)
 
 
+def h_fftfreq(I, args, kw, st, n):
+    cnt = to_x(args[0]); d = to_x(kw.get("d", args[1] if len(args) > 1 else X.const(1)))
+    if cnt is None or d is None: return Opaque("fftfreq arguments")
+    v = fresh("i")
+    return Arr([(v, cnt)], mk_fn("fftfreq", [X.var(v), cnt, d], "real"))
+
+
 def h_opaque(why):
     def h(I, args, kw, st, n): return Opaque(why)
     return h
@@ -612,8 +619,10 @@ _reg("numpy.where", h_where)
 _reg("numpy.select", h_select)
 _reg("numpy.clip", h_clip)
 _reg("numpy.power", h_pow)
+_reg("numpy.fft.fftfreq", h_fftfreq)
 _reg("numpy.searchsorted", h_searchsorted)
 _reg("numpy.stack", h_stack)
+_reg("numpy.vstack", lambda I, a, k, st, n: h_stack(I, [a[0], X.const(0)], {}, st, n))
 _reg("numpy.linalg.qr", h_qr)
 _reg("builtins.isinstance", h_isinstance)
 _reg("builtins.dict", h_dict)
